@@ -122,6 +122,11 @@ main (int argc, char *argv[])
         daemonize_init (argv[0], conf);
         if (conf->got_syslog) {
             log_close_file ();
+            /*  log_close_file() has closed stderr: re-open it, or the next
+             *    descriptor opened (e.g., the lockfile) would be assigned its
+             *    number and be closed by daemonize_fini().
+             */
+            sanitize_std_fds ();
             log_open_syslog (log_identity, LOG_DAEMON);
         }
         else {
